@@ -376,6 +376,7 @@ func (e *Executor) signaturesFilled(signatures []taproot.Signature) bool {
 
 func (e *Executor) proposalsForExecution(proposals []*proposal.Proposal, messageID string) ([]*BtcTransferProposal, error) {
 	e.propMutex.Lock()
+	defer e.propMutex.Unlock()
 	props := make([]*BtcTransferProposal, 0)
 	for _, prop := range proposals {
 		executed, err := e.isExecuted(prop)
@@ -398,7 +399,6 @@ func (e *Executor) proposalsForExecution(proposals []*proposal.Proposal, message
 			Data:        prop.Data.(BtcTransferProposalData),
 		})
 	}
-	e.propMutex.Unlock()
 	return props, nil
 }
 
